@@ -38,7 +38,7 @@ type c05g struct {
 	shape string // "2": {s1:1,s2:1,BH:0}  "1": {s1:1,s2:0,BH:0} (single)  "b": {s1:1,s2:0,BH:1}
 	mode  string // WRR WLC STICKY
 	cross int    // CrossRetry
-	init  string // d<i> backend i starts unavailable, r<i> restarted flag, S slow start on
+	init  string // d<i> backend i starts unavailable, r<i> restarted flag, S slow start on, Q<c> a rejected Reload(conf c) happened before
 	retry [2]int // RetryTime of the requests of B1 / B2
 	bal   [2]int // calls of B1 / B2
 	flip  string // over backends 0=s1/a0 1=s1/a1 2=s2/c0
@@ -94,23 +94,45 @@ func c05req(ip string, retry int) *bfe_basic.Request {
 	return req
 }
 
+// c05reloadConf builds the gslb conf of one Reload / ReloadAll step. w - x are accepted by the
+// balancer; 0 e s d are REJECTED by it (total weight 0: Reload returns an error).
+func c05reloadConf(shape string, arg byte) gslb_conf.GslbClusterConf {
+	switch arg {
+	case 'w': // all weight moves from s1 to s2 (the cluster becomes / stays single on s2)
+		g := c05gslbConf(shape)
+		g["s1"], g["s2"] = 0, 1
+		return g
+	case '-': // s2 dropped (released)
+		return gslb_conf.GslbClusterConf{"s1": 1, "GSLB_BLACKHOLE": 0}
+	case 'x': // s2 replaced by a new, still empty s3
+		return gslb_conf.GslbClusterConf{"s1": 1, "s3": 1, "GSLB_BLACKHOLE": 0}
+	case '0': // rejected: same sub-clusters, every weight 0
+		g := c05gslbConf(shape)
+		for k := range g {
+			g[k] = 0
+		}
+		return g
+	case 'e': // rejected: empty conf
+		return gslb_conf.GslbClusterConf{}
+	case 's': // rejected: list shrunk to s1 with weight 0
+		return gslb_conf.GslbClusterConf{"s1": 0}
+	case 'd': // rejected: drops s1 (the only weighted sub-cluster of shapes 1 and b), rest weight 0
+		return gslb_conf.GslbClusterConf{"s2": 0, "GSLB_BLACKHOLE": 0}
+	}
+	panic("c05reloadConf")
+}
+
+func c05rejected(arg byte) bool { return strings.IndexByte("0esd", arg) >= 0 }
+
 // c05gUpd performs one reload script on bal.
 func c05gUpd(bal *BalanceGslb, s c05g) {
 	for i := 0; i+1 < len(s.upd); i += 2 {
 		op, arg := s.upd[i], s.upd[i+1]
 		switch op {
 		case 'R':
-			var g gslb_conf.GslbClusterConf
-			switch arg {
-			case 'w': // all weight moves from s1 to s2 (the cluster becomes / stays single on s2)
-				g = c05gslbConf(s.shape)
-				g["s1"], g["s2"] = 0, 1
-			case '-': // s2 dropped (released)
-				g = gslb_conf.GslbClusterConf{"s1": 1, "GSLB_BLACKHOLE": 0}
-			case 'x': // s2 replaced by a new, still empty s3
-				g = gslb_conf.GslbClusterConf{"s1": 1, "s3": 1, "GSLB_BLACKHOLE": 0}
-			}
-			bal.Reload(g)
+			bal.Reload(c05reloadConf(s.shape, arg))
+		case 'A': // ReloadAll: gslb conf + backend table in one step
+			bal.ReloadAll(c05reloadConf(s.shape, arg), c05backends0())
 		case 'B':
 			var cb cluster_table_conf.ClusterBackend
 			switch arg {
@@ -171,6 +193,11 @@ func c05gFresh(s c05g) (*BalanceGslb, []*backend.BfeBackend) {
 		case 'S':
 			t := bal_slb.C05BigSlowStart
 			bal.SetSlowStart(cluster_conf.BackendBasic{SlowStartTime: &t})
+		case 'Q': // a reload the balancer rejects happened before (sequentially)
+			i++
+			if err := bal.Reload(c05reloadConf(s.shape, s.init[i])); err == nil {
+				panic("c05: reload expected to be rejected was accepted")
+			}
 		}
 	}
 	return bal, bs
@@ -242,13 +269,18 @@ func c05gPasses(thorough bool) []c05gpass {
 		{"2", 1, "", 2},     // request already beyond RetryMax: straight to cross-cluster
 		{"2", 1, "", 3},     // beyond RetryMax+CrossRetry
 		{"2", 1, "Sr0", 0},  // slow start on, a0 flagged restarted
+		{"1", 1, "Qs", 0},   // a rejected reload (shrunk list, weight 0) happened before; single mode
+		{"2", 1, "Qe", 0},   // a rejected reload (empty conf) happened before; hash mode
+		{"2", 1, "Q0", 0},   // a rejected reload (all weights 0) happened before
 	}
 	flips := []string{"d0d1", "f0f1", "d2", "d0u0"}
-	upds := []string{"R-", "Rx", "Rw", "B-", "B+", "S1B+", "Gs", "RxBs"}
+	// reload scripts; R0 Re Rs Rd As Ae use confs the balancer rejects
+	upds := []string{"R-", "Rx", "Rw", "B-", "B+", "S1B+", "Gs", "RxBs", "Rs", "Re", "RsR-", "As", "R0Rw", "RdB-"}
 	if thorough {
-		cfgs = append(cfgs, cfg{"1", 0, "d0d1", 0}, cfg{"b", 0, "d0d1", 0}, cfg{"1", 1, "d0d1", 0}, cfg{"2", 0, "", 2}, cfg{"1", 1, "Sr0", 0}, cfg{"2", 1, "d2", 0}, cfg{"2", 1, "d0d1d2", 0})
+		cfgs = append(cfgs, cfg{"b", 1, "Qd", 0}, cfg{"1", 1, "Qe", 0}, cfg{"2", 1, "Qs", 0}, cfg{"1", 0, "d0d1", 0}, cfg{"b", 0, "d0d1", 0}, cfg{"1", 1, "d0d1", 0}, cfg{"2", 0, "", 2}, cfg{"1", 1, "Sr0", 0}, cfg{"2", 1, "d2", 0}, cfg{"2", 1, "d0d1d2", 0})
 		flips = []string{"d0d1", "f0f1", "d2", "d0u0", "d0", "f0s0", "2f0f0", "d0d1d2"}
-		upds = []string{"R-", "Rx", "Rw", "B-", "B+", "S1B+", "Gs", "RxBs", "Bx", "S0", "S1", "Gl", "Gr", "R-B+"}
+		upds = []string{"R-", "Rx", "Rw", "B-", "B+", "S1B+", "Gs", "RxBs", "Bx", "S0", "S1", "Gl", "Gr", "R-B+",
+			"Rs", "Re", "RsR-", "As", "R0Rw", "RdB-", "R0", "Rd", "Ae", "A-", "ReR-", "RsAx"}
 	}
 	var a, b, c, d, core []c05g
 	add := func(l *[]c05g, s c05g) {
@@ -309,6 +341,52 @@ func c05gPasses(thorough bool) []c05gpass {
 	return []c05gpass{{"gslb-A@1", 1, a}, {"gslb-B@2", 2, b}, {"gslb-C@2", 2, c}, {"gslb-D@1", 1, d}, {"gslb-core@3", 3, core}}
 }
 
+// c05gNeutral: a reload the balancer rejected must leave balancing as it was before the reload:
+// two fresh balancers, one with and one without the rejected reload in its past, answer the same
+// sequence of requests (sequentially); results (backend name / error) must agree call by call.
+func c05gNeutral(r *vk.Run, s c05g, base string) {
+	id := base + "|neutral"
+	if !r.Case(id) {
+		return
+	}
+	seq := func(init string) string {
+		s2 := s
+		s2.init = init
+		out := ""
+		panicked, val := vk.Guard(func() {
+			bal, _ := c05gFresh(s2)
+			for i := 0; i < 6; i++ {
+				b, err := bal.Balance(c05req([]string{"1.1.1.1", "1.1.1.2", "9.8.7.6"}[i%3], 0))
+				switch {
+				case err != nil:
+					out += " " + err.Error()
+				case b != nil:
+					out += " " + b.SubCluster + "/" + b.Name
+				default:
+					out += " nil-nil"
+				}
+			}
+		})
+		if panicked {
+			out += " PANIC " + vk.PanicSite(val)
+		}
+		return out
+	}
+	without := ""
+	for i := 0; i < len(s.init); i++ {
+		if s.init[i] == 'Q' {
+			i++
+			continue
+		}
+		without += string(s.init[i])
+	}
+	a, b := seq(without), seq(s.init)
+	r.Outcome("gslb:" + s.mode + ":rejected-reload-neutral=" + fmt.Sprint(a == b))
+	if a != b {
+		r.Violation("rejected-reload-not-neutral:gslb:init="+s.init, id, "mode "+s.mode+": "+ fmt.Sprintf("6 sequential Balance calls answer%s without the rejected reload but%s after it", a, b))
+	}
+}
+
 func c05GSLB(r *vk.Run, races *bal_slb.C05Races, idx *int) {
 	maxSteps := 0
 	for _, ps := range c05gPasses(r.Thorough()) {
@@ -361,10 +439,16 @@ func c05GSLB(r *vk.Run, races *bal_slb.C05Races, idx *int) {
 				if strings.HasPrefix(r.ReplayCase(), base+"|trace:") {
 					bal_slb.C05Replay1(strings.TrimPrefix(r.ReplayCase(), base+"|trace:"), one)
 				}
+				if r.ReplayCase() == base+"|neutral" {
+					c05gNeutral(r, s, base)
+				}
 				continue
 			}
 			if !r.Mine(*idx) {
 				continue
+			}
+			if strings.Contains(s.init, "Q") && s.flip == "" {
+				c05gNeutral(r, s, base)
 			}
 			seen = map[string]bool{}
 			n := vk.Explore(nil, nil, ps.bound, one, func() bool { return r.Expired("c05 " + ps.name) })
